@@ -166,14 +166,16 @@ def replay(c, pid, trees, behs, nshards=24, timeout=1500, tag="np"):
     c.traces_validated += len(behs)
 
 
-def run_nodepool(c, pid):
+def run_nodepool(c, pid, quick_cover=220, quick_sim=90):
     """TLC design checks of NodePool.tla + replay of its behaviours on the real node; violations of kinds KINDS[pid]
-    are reported through c.violation (by absorb_go), everything else is noted."""
+    are reported through c.violation (by absorb_go), everything else is noted.
+    quick_cover / quick_sim: number of edge-cover / simulated behaviours replayed in the quick tier (C13 runs fewer: the
+    composition is the last part of a check that is already long; C04 uses the defaults)."""
     import time, concurrent.futures
     t0 = time.time()
     rng = random.Random(c.seed * 7919 + 17)
     quick = c.tier == "quick"
-    sims = [("Sim_NodePool.cfg", "N1", 90 if quick else 700, 16)]
+    sims = [("Sim_NodePool.cfg", "N1", quick_sim if quick else 700, 16)]
     if not quick:
         sims.append(("Sim_NodePool_N2.cfg", "N2", 500, 17))
 
@@ -191,7 +193,7 @@ def run_nodepool(c, pid):
     subs = dsubs + [gsub] + ssubs
     with concurrent.futures.ThreadPoolExecutor(max_workers=len(subs)) as ex:
         f_designs = [ex.submit(design_check, dsubs[i], cfg, what) for i, (cfg, what) in enumerate(designs)]
-        f_gen = ex.submit(edge_cover, gsub, rng, 220 if quick else 1600)
+        f_gen = ex.submit(edge_cover, gsub, rng, quick_cover if quick else 1600)
         f_sims = [ex.submit(simulate, ssubs[i], cfg, tn, 1 + i, num, depth, c.seed) for i, (cfg, tn, num, depth) in enumerate(sims)]
         for f in f_designs:
             f.result()
